@@ -124,3 +124,68 @@ def route_cases(thorough):
                 # the setting the route is supposed to carry: what was written, the default when absent
                 cases.append(dict(c, route=route, dfc_written=s, dfc=s if s is not None else "snake_case"))
     return cases
+
+
+# ---------------------------------------------------------------- multi-run histories into one output directory
+def run_history(h):
+    """h = {"versions": [container, ...], "route": "cli" | "build", "mode": "plain" | "zod"}: every version is
+    written over src/lib.rs in turn and followed by an UNFORCED run into the same output directory (the cache
+    decides whether anything is written). Returns the types.ts text found after each run."""
+    lib = "zod" if h["mode"] == "zod" else "none"
+    steps = []
+    with vlib.Sandbox("c06h") as sb:
+        src = sb.path("root/src-tauri/src")
+        out = sb.path("root/src/generated")
+        section = {"projectPath": src, "outputPath": out, "validationLibrary": lib}
+        if h.get("dfc", "snake_case") != "snake_case":
+            section["defaultFieldCase"] = h["dfc"]
+        sb.write("root/tauri.conf.json", json.dumps({"productName": "demo", "plugins": {"typegen": section}}))
+        for v in h["versions"]:
+            sb.write("root/src-tauri/src/lib.rs", gen.rust_source(v))
+            if h["route"] == "cli":
+                rc, text = sb.cli(["generate"], cwd=sb.path("root"))
+                r = {"ok": True, "said": "up to date" if "up to date" in text.lower() else "generated"} if rc == 0 else {"error": text[-300:]}
+            else:
+                r = harness_route({"id": 0, "cwd": sb.path("root/src-tauri"), "kind": "build"})
+            p = os.path.join(out, "types.ts")
+            r["types"] = open(p, encoding="utf-8").read() if os.path.exists(p) else None
+            steps.append(r)
+    return steps
+
+
+def history_cases(thorough):
+    """edits of serde attributes between runs; history v1, v2, v1 (and v2, v1, v2), both modes, CLI and build route"""
+    F = lambda ident, attrs=None, **kw: dict({"ident": ident, "attrs": attrs or []}, **kw)
+    S = lambda cattrs, items: {"kind": "struct", "cattrs": cattrs, "items": items, "dfc": "snake_case"}
+    E = lambda cattrs, items: {"kind": "enum", "cattrs": cattrs, "items": items, "dfc": "snake_case"}
+    ra = lambda r: [[["ra", r]]]
+    pairs = [
+        # a rename equal to the item's own identifier, under a container rule (seed C06-10)
+        (S(ra("camelCase"), [F("user_id"), F("a")]), S(ra("camelCase"), [F("user_id", [[["rename", "user_id"]]]), F("a")])),
+        (E(ra("snake_case"), [F("TaskStarted", shape="tuple"), F("Idle")]), E(ra("snake_case"), [F("TaskStarted", [[["rename", "TaskStarted"]]], shape="tuple"), F("Idle")])),
+        (S(ra("SCREAMING-KEBAB-CASE"), [F("first_last_name")]), S(ra("SCREAMING-KEBAB-CASE"), [F("first_last_name", [[["renamep", [["ser", "first_last_name"]]]]])])),
+        # rename_all added / removed / changed / respelled
+        (S([], [F("user_id"), F("display_name")]), S(ra("camelCase"), [F("user_id"), F("display_name")])),
+        (S(ra("camelCase"), [F("user_id")]), S(ra("PascalCase"), [F("user_id")])),
+        (E(ra("lowercase"), [F("InProgress"), F("Done")]), E([], [F("InProgress"), F("Done")])),
+        (S(ra("kebab-case"), [F("user_id")]), S([[["rap", [["ser", "camelCase"], ["de", "kebab-case"]]]]], [F("user_id")])),
+        # skip toggled, rename added / changed, on fields and variants
+        (S([], [F("user_id"), F("secret")]), S([], [F("user_id"), F("secret", [[["skip"]]])])),
+        (E([], [F("Active"), F("Gone")]), E([], [F("Active"), F("Gone", [[["skip"]]])])),
+        (S([], [F("user_id", [[["rename", "uid"]]])]), S([], [F("user_id", [[["rename", "id"]]])])),
+        (E(ra("UPPERCASE"), [F("Active"), F("Done")]), E(ra("UPPERCASE"), [F("Active"), F("Done", [[["rename", "fin"]]])])),
+        (S([], [F("user_id", [[["other", "default"]]])]), S([], [F("user_id", [[["other", "default"]], [["rename", "userId"]]])])),
+    ]
+    cases = []
+    for k, (v1, v2) in enumerate(pairs):
+        for route in ("cli", "build"):
+            for mode in ("plain", "zod"):
+                if not thorough and (k + (route == "build") + (mode == "zod")) % 2 and k > 2:
+                    continue
+                cases.append({"versions": [v1, v2, v1], "route": route, "mode": mode})
+                if thorough or k < 3:
+                    cases.append({"versions": [v2, v1, v2], "route": route, "mode": mode})
+    # a non-identity defaultFieldCase and a rename equal to the identifier
+    v1, v2 = S([], [F("user_id")]), S([], [F("user_id", [[["rename", "user_id"]]])])
+    cases.append({"versions": [v1, v2, v1], "route": "cli", "mode": "plain", "dfc": "camelCase"})
+    return cases
